@@ -272,7 +272,7 @@ class OblResult:
     time_s: float = 0.0
     detail: str = ""
     model: Any = None
-    path: int = -1
+    path: Any = -1
     canary: bool = False
     replay: str | None = None  # path of the replay file
     replay_verdict: str = ""  # 'violates' | 'holds' | 'none' | 'error'
@@ -291,6 +291,7 @@ class UnitResult:
     wall_s: float = 0.0
     dead_paths: int = 0
     samples: list = field(default_factory=list)
+    frontier: list = field(default_factory=list)
 
 
 def make_interp(unit: Unit, st: State) -> Interp:
@@ -356,11 +357,13 @@ KNOWN: list = []  # entries of known_findings.json (set by the CLI)
 REPLAY_DIR = "out/replay"
 
 
-def run_unit(unit: Unit, timeout_ms: int = 10000, canaries: bool = True) -> UnitResult:
+def run_unit(unit: Unit, timeout_ms: int = 10000, canaries: bool = True, prefixes=None, split_at: int = 0, budget: int = 0) -> UnitResult:
+    """prefixes: explore only the subtrees below these decision prefixes; split_at > 0: stop expanding once the
+    frontier holds that many prefixes and return them in ur.frontier (to be explored by other processes)."""
     t0 = time.time()
     ur = UnitResult(unit)
     try:
-        paths = explore(lambda st: run_path(unit, st), unit.max_paths)
+        paths, ur.frontier = explore(lambda st: run_path(unit, st), unit.max_paths, prefixes, split_at, budget)
     except Unsupported as e:
         ur.unsupported = str(e)
         ur.wall_s = time.time() - t0
@@ -370,7 +373,9 @@ def run_unit(unit: Unit, timeout_ms: int = 10000, canaries: bool = True) -> Unit
         ur.wall_s = time.time() - t0
         return ur
     ur.paths = len(paths)
-    for pi, (st, (ctx, outcome)) in enumerate(paths):
+    for _n, (st, (ctx, outcome)) in enumerate(paths):
+        log = st.dctx[0].log
+        pi = f"{len(log)}x{int(''.join('1' if b else '0' for b in log) or '0', 2):x}"
         ur.assumptions |= st.assumptions
         ur.inlined |= st.inlined
         # escape analysis
@@ -450,7 +455,13 @@ def _discharge(name: str, st: State, goal, timeout_ms: int, pi: int) -> OblResul
     if z3.is_true(goal_s):
         return OblResult(name, "discharged", "simplify", 0.0, path=pi)
     hyps = list(st.pc)
-    ax = count_axioms(st)
+    key = (len(st.counts), len(st.pc))
+    cached = getattr(st, "_ax_cache", None)
+    if cached is not None and cached[0] == key:
+        ax = cached[1]
+    else:
+        ax = count_axioms(st)
+        st._ax_cache = (key, ax)
     status, backend, model, detail = smt.prove(hyps + ax, goal, timeout_ms)
     if status == "failed" and st.counts:
         # retry with the quantified form of the emptiness facts before believing a counter-model
